@@ -45,6 +45,8 @@ X04 == IF X.tf = "X" THEN X.raised ELSE
        /\ IF Plots(O) /\ ~PlotCrashes(O) THEN X.fx.nplots = 1 /\ X.fx.plot_ok ELSE X.fx.nplots = 0
        /\ (SavesStream(O) => X.stream_ok) /\ (JoinsEvents(O) => X.joined_ok) /\ (SavesRegions(O) => X.regions_ok)
        /\ X.extra_files = 0
+       \* microphone input: the device was opened once for input with exactly the prescribed parameters (X.micopen comes from Cli!MicOpen via the export)
+       /\ IF X.mic /\ Exit(O) = 0 THEN X.fx.mic_opens >= 1 /\ X.fx.mic_open = X.micopen ELSE X.fx.mic_opens = 0        \* rejected arguments open nothing
 Mon == TLCSet(i, (IF C15 THEN 1 ELSE 2) + (IF X.hasfx /\ ~X04 THEN 2 ELSE 0))
 ASSUME \A t \in 1..Len(Runs) : TLCSet(t, 0)
 Post == \A t \in 1..Len(Runs) : PrintT(ToJson(<<"TRACE", t, TLCGet(t), 1>>))
